@@ -5,7 +5,7 @@ import LLRP.Model.AckLTS
 oracle verbs of C07:
 `ack-script <version> <event…>` — the acknowledgement LTS under the deterministic scheduler of `Model/AckLTS`;
 events `k<id>` (keep-alive handled), `r<typ>:<len>:<seed>:<wants>` (request offered to the idle write loop),
-`S` / `R` (peer stops / resumes reading). Reply: the frames written (`typ:id` in order), the ids dropped, the ids
+`S` / `R` (peer stops / resumes reading), `m<typ>:<id>` (the peer sends some other message). Reply: the frames written (`typ:id` in order), the ids dropped, the ids
 still queued, and whether every scripted action was enabled.
 `first-ka` — a keep-alive as the very first message: the connection is rejected and nothing is ever written.
 -/
@@ -14,6 +14,7 @@ open LLRP
 
 def parseEnv (s : String) (caller : Nat) : Option Env :=
   if s == "S" then some .stall else if s == "R" then some .resume else
+  if s.startsWith "m" then some .other else
   match s.toList with
   | 'k' :: r => (String.ofList r).toNat?.map Env.ka
   | 'r' :: _ => (parseWItem s caller).map Env.req
